@@ -87,6 +87,8 @@ class StoreExec:
         if self.depth > 30:
             raise AnalysisIncomplete("typestate: call depth exceeded in %s" % fi.qualname)
         self.executed_methods.add(fi.qualname)
+        store = dict(store)
+        self.hooks.on_enter(self, fi, store)
         try:
             local = {}
             for (pname, default) in fi.params():
@@ -307,6 +309,10 @@ class StoreExec:
                     out.append((node, "self", fi))
             elif isinstance(base, ast.Call) and isinstance(base.func, ast.Name) and base.func.id == "super":
                 out.append((node, "super", node.func.attr))
+            elif self.tracked_path(base, ctx) is not None and node.func.attr.endswith("_") and not node.func.attr.endswith("__"):
+                out.append((node, "inplace", self.tracked_path(base, ctx)))
+            elif self._inplace_chain_root(base, ctx) is not None and node.func.attr.endswith("_") and not node.func.attr.endswith("__"):
+                out.append((node, "inplace", self._inplace_chain_root(base, ctx)))
             else:
                 ch = attr_chain(base)
                 if ch is not None and sn is not None and ch.startswith(sn + "."):
@@ -315,6 +321,16 @@ class StoreExec:
                         ai = self.p.attrs(self.cls).get(sub)
                         if ai is not None and ai.kind == PLAIN and isinstance(ai.extra, ClassInfo) and sub in self.roots:
                             out.append((node, "sub", (sub, ai.extra)))
+
+    def _inplace_chain_root(self, base, ctx):
+        """x.mul_(..).add_(..): the receiver of the outer in-place call is the inner one's."""
+        n = base
+        while isinstance(n, ast.Call) and isinstance(n.func, ast.Attribute) and n.func.attr.endswith("_") and not n.func.attr.endswith("__"):
+            n = n.func.value
+            p = self.tracked_path(n, ctx)
+            if p is not None:
+                return p
+        return None
 
     def _args_of(self, call, fi, local, store, ctx):
         args = {}
@@ -328,6 +344,10 @@ class StoreExec:
         return args
 
     def _do_call(self, call, kind, info, store, local, ctx):
+        if kind == "inplace":
+            s2 = dict(store)
+            self.hooks.on_inplace(self, info, call.func.attr, call, s2, local, ctx)
+            return [Outcome(s2, "return", UNK)]
         if kind == "self":
             return self.run_func(info, self._args_of(call, info, local, store, ctx), store)
         if kind == "sub":
@@ -384,6 +404,12 @@ class StoreExec:
 
 
 class Hooks:
+    def on_enter(self, ex, fi, store):
+        pass
+
+    def on_inplace(self, ex, path, meth, call, store, local, ctx):
+        pass
+
     def on_read(self, ex, path, value, node, store, ctx):
         pass
 
